@@ -27,7 +27,9 @@ Over(S) == {Bin(o, l, r) : o \in PlainBinNodes, l \in S, r \in S} \cup {NOp(o, <
 Depth1 == Leaves \cup Over(Leaves)
 Few == Leaves \cup {Bin(o, L1, LX) : o \in {"Exp", "Mul", "Sub", "Lt", "And", "Or"}} \cup {NOp("Neg", <<LX>>), Asg("Assign", L1),
                                                                                            Asg("MulAssign", L1), CallN(LX)}
-Sibs == IF Siblings = "few" THEN Few ELSE Depth1
+\* "mid": every binary operator once (not only one per precedence level), so that each operator's own table entry is exercised
+Mid == Few \cup {Bin(o, L1, LX) : o \in PlainBinNodes} \cup {NOp("Not", <<LX>>)}
+Sibs == IF Siblings = "few" THEN Few ELSE IF Siblings = "mid" THEN Mid ELSE Depth1
 Grow(x) == {Bin(o, x, b) : o \in PlainBinNodes, b \in Sibs} \cup {Bin(o, b, x) : o \in PlainBinNodes, b \in Sibs}
            \cup {NOp(o, <<x>>) : o \in {"Neg", "Not"}} \cup {Asg(o, x) : o \in AssignNodes} \cup {CallN(x)}
 
